@@ -85,7 +85,7 @@ theorem Resolved.classGov {P : Trait → Prop} {w w' : World} {o1 : Obj} {c1 : C
 theorem ClassGovAt_step (E : Env) {P : Trait → Prop} {w : World} (hw : NoDeleg w) {oi : Nat} {name : Name}
     (hg : ClassGovAt P w oi name) (op : Op) : ClassGovAt P (step E w op).1 oi name := by
   obtain ⟨o, c, ho, hc, hcg, htot⟩ := hg
-  have he := step_effect E w op
+  have he := step_effect E w hw.hooks op
   generalize (step E w op).1 = w1 at he
   cases he with
   | noop => exact ⟨o, c, ho, hc, hcg, htot⟩
@@ -123,7 +123,7 @@ theorem GovAt_step (E : Env) {P : Trait → Prop} {w : World} (hw : NoDeleg w) {
     (hg : GovAt P w oi name) {op : Op} (hadd : ∀ t, op = .addTrait oi name t → P t) :
     GovAt P (step E w op).1 oi name := by
   obtain ⟨o, c, ho, hc, hig, hcg, htot⟩ := hg
-  have he := step_effect E w op
+  have he := step_effect E w hw.hooks op
   generalize (step E w op).1 = w1 at he
   cases he with
   | noop => exact ⟨o, c, ho, hc, hig, hcg, htot⟩
@@ -172,7 +172,7 @@ theorem DictAt_step (E : Env) {P : Trait → Prop} {w : World} (hw : NoDeleg w) 
   obtain ⟨o, c, ho, hc, hig, hcg, htot⟩ := hg
   obtain ⟨o', ho', hdr⟩ := hd
   rw [ho] at ho'; cases ho'
-  have he := step_effect E w op
+  have he := step_effect E w hw.hooks op
   generalize (step E w op).1 = w1 at he
   cases he with
   | noop => exact ⟨o, ho, hdr⟩
@@ -210,11 +210,12 @@ theorem resolve₀_total {c : Cls} (htot : Total c) (name : Name) : ∃ t, resol
 
 /-- A write always finds a trait (the '' wildcard makes the search total) and the
 trait it finds is in `P`. -/
-theorem resolveSet_ok {P : Trait → Prop} {w : World} {o : Obj} {c : Cls} {name : Name}
-    (hcp : ClsPlain c) (hop : ObjPlain o) (hig : InstGov P o name) (hcg : ClassGov P c name) (htot : Total c) :
-    ∃ w' t, resolveSet w o c name = (w', .ok t) ∧ P t ∧ Resolved w o c name w' := by
-  obtain ⟨hr, hd⟩ := resolveSet_spec w o c name
-  cases hrs : resolveSet w o c name with
+theorem resolveSet_ok {P : Trait → Prop} {w : World} {oi : Nat} {o : Obj} {c : Cls} {name : Name}
+    (hcp : ClsPlain c) (hop : ObjPlain o) (hig : InstGov P o name) (hcg : ClassGov P c name) (htot : Total c)
+    (hh : o.hooks = []) (ho : w.objs[oi]? = some o) :
+    ∃ w' t, resolveSet w oi o c name = (w', .ok t) ∧ P t ∧ Resolved w o c name w' := by
+  obtain ⟨hr, hd⟩ := resolveSet_spec w c name hh ho
+  cases hrs : resolveSet w oi o c name with
   | mk w' res =>
     rw [hrs] at hr hd
     cases res with
@@ -250,7 +251,7 @@ theorem setattro_outcome (E : Env) {P : Trait → Prop} {w : World} (hw : NoDele
       (setattro E w oi o c name value).2 = (setattrKind E t o.dict name value).map (fun _ => Out.done) := by
   obtain ⟨o, c, ho, hc, hig, hcg, htot⟩ := hg
   obtain ⟨w', t, hrs, hpt, _⟩ := resolveSet_ok (w := w) (hw.cls c (List.mem_of_getElem? hc))
-    (hw.obj o (List.mem_of_getElem? ho)) hig hcg htot
+    (hw.obj o (List.mem_of_getElem? ho)) hig hcg htot (hw.hooks o (List.mem_of_getElem? ho)) ho
   refine ⟨o, c, t, ho, hc, hpt, ?_⟩
   unfold setattro
   rw [hrs]
@@ -304,7 +305,7 @@ theorem getattro_outcome (E : Env) {P : Trait → Prop} {w : World} (hw : NoDele
         obtain ⟨e', he'⟩ := firstMatch_total htot name
         rw [he'] at hp; simp at hp
     | ok t =>
-      rw [getPrefixTrait_ok hp hi]
+      rw [getPrefixTrait_ok hp hi (hw.hooks o (List.mem_of_getElem? ho)) ho]
       right
       have hpt : P t := by
         rw [prefixTrait_plain_eq hcp hop] at hp
